@@ -416,7 +416,7 @@ example : ∃ bufs, serCompact ext0 (ofValue exStrDocV) = .ok bufs ∧
     `arbitrary_precision`. The `Serialize` impls themselves are serde's / serde_derive's (assumption; the correspondence
     op `rtm` replays exactly these calls against the crate). -/
 theorem c04_typed_partial (mcfg : Cfg) (_hap : mcfg.ap = false) (src : Src) (ext : Ext) (hext : ExtOK ext)
-    (s : Schema) (hs : Proofs.Typed.agreeFrag2 s = true) (v : TVal) (hw : Model.TypedSer.wfTV s v = true)
+    (s : Schema) (hs : Proofs.Typed.agreeFragT s = true) (v : TVal) (hw : Model.TypedSer.wfTV s v = true)
     (hd : mcfg.limitOff = true ∨ depthJV (Model.TypedSer.valueOf s v) ≤ 127) :
     ∃ bufs, serCompact ext (Model.TypedSer.progOf s v) = .ok bufs ∧
       Model.Typed.deTypedTop { cfg := mcfg, src := src } s bufs.flatten = .ok v := by
@@ -435,7 +435,7 @@ theorem c04_typed_partial (mcfg : Cfg) (_hap : mcfg.ap = false) (src : Src) (ext
     have hfv := Proofs.TypedSer.fromValue_valueOf { po := mcfg.po, fr := mcfg.fr, ap := false } rfl {} s v hs hw
     have hag := Proofs.Typed.agree_gen ext hext (env := { cfg := mcfg, src := src }) rfl
       { po := mcfg.po, fr := mcfg.fr, ap := false } rfl {} Proofs.TypedSer.RT Proofs.TypedSer.closed_RT
-      (Model.Typed.Schema.size s + 1) s (by omega) hs 0 (Model.TypedSer.valueOf s v) hvok
+      (fun h => by cases h) (Model.Typed.Schema.size s + 1) s (by omega) hs 0 (Model.TypedSer.valueOf s v) hvok
       (by rcases hd with h | h
           · exact .inl h
           · exact .inr (by omega)) ⟨v, hw, rfl⟩ [] 0 (.inl rfl)
@@ -451,7 +451,7 @@ def exSchema : Schema :=
   .struct_ [([0x61], .int .u8), ([0x62], .option .string), ([0x65], .enum_ [([0x55], .unit), ([0x56], .tuple [.int .u8, .string])])] false
 def exTV : TVal := .struct_ [.int 7, .none, .variant 1 (.seq [.int 1, .str [0x78, 0x0a]])]
 
-example : Proofs.Typed.agreeFrag2 exSchema = true ∧ Model.TypedSer.wfTV exSchema exTV = true ∧
+example : Proofs.Typed.agreeFragT exSchema = true ∧ Model.TypedSer.wfTV exSchema exTV = true ∧
     depthJV (Model.TypedSer.valueOf exSchema exTV) ≤ 127 := by decide
 
 example : (serCompact ext0 (Model.TypedSer.progOf exSchema exTV)).map List.flatten = .ok
